@@ -320,6 +320,7 @@ pub fn run_elf(ctx: &Ctx, property: &'static str) -> i32 {
         let ld = std::cell::RefCell::new(Loader::new(&format!("{}-{}", property, shard)));
         let stats = std::cell::RefCell::new(Stats::new());
         let ent = entropy_n(900);
+        set_shrink_iters(250); // a case costs about a millisecond (scratch file, load, image comparison) and all shards shrink at once
         let _ = run_prop(mix(ctx.seed, if c12 { 0x1201_0000 } else { 0x1101_0000 } + shard as u64), n / nshards as u32, &ent, |raw, shrinking| {
             let spec = build(&mut Ent::new(raw), &Opts { c12 });
             let r = if c12 { check_c12(&mut ld.borrow_mut(), &spec) } else { check_c11(&mut ld.borrow_mut(), &spec) };
